@@ -381,3 +381,38 @@ Theorem C05_gap_nonvacuous2 :
      load_sync term_hops nv_bad 0 = Ok (Some p) /\ p <> true_pair term_hops nv_data 0).
 Proof. exact gap_enc_nonvacuous2. Qed.
 Print Assumptions C05_gap_nonvacuous2.
+
+(* ---- collision form (Proofs/Collision.v; depends on Classical_Prop.classic and on nothing else): the idealised hypothesis
+   cv_injective is dropped; under 32-byte outputs and a correct byte comparison the conclusion holds OR the hash functions
+   have a collision between two distinct valid inputs ---- *)
+From BaoV Require Import Proofs.Collision.
+Theorem C05_ok_iff_intact_or_collision : forall (HO : hops), cv_len32 HO -> beq_correct HO ->
+  (forall (data : bytes HO) (bs : N) (q : ranges),
+  wf_ranges q = true -> blen HO data <= 2 ^ 63 -> bs <= 10 ->
+  forall ob : outboard HO,
+  ob_tree ob = mkTree (blen HO data) bs -> ob_root ob = root_hash HO data ->
+  forall (data' : bytes HO) (r : res enc_err unit) (out : bytes HO),
+  encode_ranges_validated HO data' ob q = (r, out) ->
+  (r = Ok tt <-> Forall (unit_ok HO data bs (load_sync HO ob) data')
+                        (pre_order_chunks_iter (mkTree (blen HO data) bs) (truncate_ranges q (blen HO data)) 0)) /\
+  ((forall nd, In nd (enc_nodes (blen HO data) bs q) -> exists p, load_sync HO ob nd = Ok (Some p)) ->
+   blen HO data' = blen HO data -> r = Ok tt \/ is_mismatch r)) \/
+  collision HO.
+Proof. intros HO Hl Hb. apply (or_collision HO _ Hl Hb). exact (C05_ok_iff_intact HO). Qed.
+Print Assumptions C05_ok_iff_intact_or_collision.
+
+Theorem C05_ok_iff_intact_fsm_or_collision : forall (HO : hops), cv_len32 HO -> beq_correct HO ->
+  (forall (data : bytes HO) (bs : N) (q : ranges),
+  wf_ranges q = true -> blen HO data <= 2 ^ 63 -> bs <= 10 ->
+  forall ob : outboard HO,
+  ob_tree ob = mkTree (blen HO data) bs -> ob_root ob = root_hash HO data ->
+  forall (data' : bytes HO) (r : res enc_err unit) (out : bytes HO),
+  encode_ranges_validated_fsm HO data' ob q = (r, out) ->
+  (r = Ok tt <-> Forall (unit_ok HO data bs (load_fsm HO ob) data')
+                        (pre_order_chunks_iter (mkTree (blen HO data) bs) (truncate_ranges q (blen HO data)) 0)) /\
+  ((forall nd, In nd (enc_nodes (blen HO data) bs q) -> exists p, load_fsm HO ob nd = Ok (Some p)) ->
+   blen HO data' = blen HO data -> r = Ok tt \/ is_mismatch r)) \/
+  collision HO.
+Proof. intros HO Hl Hb. apply (or_collision HO _ Hl Hb). exact (C05_ok_iff_intact_fsm HO). Qed.
+Print Assumptions C05_ok_iff_intact_fsm_or_collision.
+
